@@ -20,7 +20,7 @@ FAMS = gen.ALL_FAMILIES + ("flat", "qp_subnormal")
 
 
 def floors(tier):
-    return {"states_checked": 3000, "results_checked": 500, "restarts_checked": 100, "chains_whose_first_leg_returns_before_any_gradient": 40, "accepted_not_last_trial": 10, "scaled_runs": 30, "runs_with_reused_gradient_buffer": 80, "runs_whose_objective_returns_one_reused_array_overwritten_by_the_gradient_code": 60, "runs_with_logger": 200,
+    return {"states_checked": 3000, "results_checked": 500, "restarts_checked": 100, "states_of_legs_introducing_a_scaler_checked_for_their_counters": 100, "chains_whose_first_leg_returns_before_any_gradient": 40, "accepted_not_last_trial": 10, "scaled_runs": 30, "runs_with_reused_gradient_buffer": 80, "runs_whose_objective_returns_one_reused_array_overwritten_by_the_gradient_code": 60, "runs_with_logger": 200,
             "callback_states_reinspected_after_the_run": 3000, "runs_from_a_start_beyond_unit_step_resolution": 12, "runs_that_could_not_leave_x0": 4, "results_with_non_finite_gradient": 10, "__nontrivial__": 40}
 
 
@@ -71,7 +71,8 @@ def cases(tier, seed):
             cfg["reuse_grad_buffer"] = True  # the user's gradient fills and returns one preallocated array
         # (the first leg may be one that returns at once - a target its start point already meets, no gradient computed - and the chain
         #  goes on from that result)
-        yield {"problem": ps, "cfg": cfg, "chain": chain, "target_first": bool(chain and i % 5 == 3 and "scaler" not in cfg)}
+        yield {"problem": ps, "cfg": cfg, "chain": chain, "target_first": bool(chain and i % 5 == 3 and "scaler" not in cfg),
+               "scaler_on_restart": float(np.exp(rng.uniform(np.log(1e-2), np.log(1e2)))) if (chain and i % 6 == 1 and "scaler" not in cfg) else None}
 
 
 _AD = [0, False]
@@ -96,8 +97,17 @@ def install_ad_counter():
     _AD[1] = True
 
 
-def judge_state(out, P, snap, s, mode, exp_nf, exp_ng, where, tags, exp_fd_ng=None):
+def judge_state(out, P, snap, s, mode, exp_nf, exp_ng, where, tags, exp_fd_ng=None, counters_only=False):
     """snap: deep copy of an OptimizeResult; exp_nf/exp_ng: expected counters."""
+    if counters_only:
+        # a leg that introduces a scaler over an unscaled checkpoint: the units of the values it reports depend on whether it evaluated
+        # anything (C04 judges them); the counters are the checkpoint's plus the calls made since, whatever the units
+        out.count("states_of_legs_introducing_a_scaler_checked_for_their_counters")
+        if snap["nfev"] != exp_nf:
+            out.violate("nfev_mismatch", f"{where}: nfev={snap['nfev']} but {exp_nf} objective calls were made (incl. checkpoint's)", **tags)
+        elif mode == "callable" and snap["njev"] != exp_ng:
+            out.violate("njev_mismatch", f"{where}: njev={snap['njev']} but {exp_ng} gradient calls were made (incl. checkpoint's)", **tags)
+        return
     if mode != "callable" and exp_fd_ng is not None and snap["njev"] != exp_fd_ng:
         out.violate("njev_mismatch", f"{where}: njev={snap['njev']} but {exp_fd_ng} finite-difference gradient computations were made (incl. checkpoint's)", **tags)
         return
@@ -155,6 +165,9 @@ def run(spec):
     kept = []  # results the user keeps: they must stay coherent whatever is done with them later
     for step in range(1 + len(spec["chain"])):
         c = dict(cfg, maxiter=maxiter, x0_same_object=True)
+        scaler_leg = bool(spec.get("scaler_on_restart") and step == 1)
+        if scaler_leg:
+            c["scaler"] = float(spec["scaler_on_restart"])  # a gradient scaler given on the first continuation only
         if spec.get("target_first") and step == 0:
             c["ftarget"] = 1e300
             out.count("chains_whose_first_leg_returns_before_any_gradient")
@@ -168,14 +181,14 @@ def run(spec):
             out.count("runs_raised")
             out.count("raised:" + type(tr.exc).__name__)
             break
-        if "scaler" in c and tr.scaler_calls:
+        if "scaler" in c and tr.scaler_calls and not scaler_leg:
             s = float(c["scaler"])
             out.count("scaled_runs")
         where = f"{P.spec['family']} n={P.n} step={step}"
         for i, rec in enumerate(tr.cb):
             out.count("states_checked")
             judge_state(out, P, rec["snap"], s, mode, base_nf + rec["nf"], base_ng + rec["ng"], f"{where} callback#{i}", dict(tags, where="callback"),
-                        exp_fd_ng=(base_fd + cb_ad[i]) if (_AD[1] and mode != "callable" and i < len(cb_ad)) else None)
+                        exp_fd_ng=(base_fd + cb_ad[i]) if (_AD[1] and mode != "callable" and i < len(cb_ad)) else None, counters_only=scaler_leg)
             if out.violations:
                 break
         if out.violations:
@@ -184,7 +197,9 @@ def run(spec):
         if step > 0:
             out.count("restarts_checked")
         judge_state(out, P, tr.snap, s, mode, base_nf + tr.nf, base_ng + tr.ng, f"{where} result", dict(tags, where="result", restart=step > 0),
-                    exp_fd_ng=(base_fd + ad_total) if (_AD[1] and mode != "callable") else None)
+                    exp_fd_ng=(base_fd + ad_total) if (_AD[1] and mode != "callable") else None, counters_only=scaler_leg)
+        if scaler_leg:
+            break  # (the chain ends with this leg: what follows a scaled checkpoint is the open finding recorded for C03)
         if mode != "callable":
             out.count("fd_njev_checked")
         if out.violations:
